@@ -5,7 +5,11 @@ import numpy as np
 
 from mmv import gen
 from mmv import searchlab as sl
+from mmv import tbrref
 from mmv import util
+
+
+INFO = {}
 
 
 def V(clause, mech, detail):
@@ -224,6 +228,14 @@ def c04_clauses(case, truth, rec, which, par):
       continue
     if tuple(map(_b, nd['tests'])) != tuple(map(_b, rc['tests'])):
       out.append(V('tests', which + ':tests-mismatch', 'design #%d test outcomes %r, recomputed %r' % (pos, nd['tests'], rc['tests'])))
+    # referee written in plain numpy (independent of the diagnostics class of the tree under test)
+    ref_tests, edge = tbrref.design_tests(rc['x'], rc['y'], truth.n_test, truth.sig, truth.kw.get('min_corr', 0.8))
+    if ref_tests is not None and not edge:
+      INFO['referee_tests'] = INFO.get('referee_tests', 0) + 1
+      if tuple(map(_b, nd['tests'])) != tuple(map(_b, ref_tests)):
+        out.append(V('tests-referee', which + ':tests-vs-independent-referee',
+                     'design #%d T=%s C=%s test outcomes (corr, A/A, BB, DW) %r, independent evaluation from the two series %r' % (
+                         pos, nd['t'], nd['c'], tuple(map(_b, nd['tests'])), tuple(map(_b, ref_tests)))))
     a, b = nd['score'], rc['score']
     if (a[:4] != b[:4] or not util.close(a[4], b[4], rtol=0, atol=1e-12) or not util.close(a[5], b[5], rtol=1e-7)):
       mech = which + ':score-mismatch'
